@@ -190,20 +190,49 @@ fn s_pool_shrinks() -> Result<(), String> {
 
 /// a session with no changes writes nothing (flags clean => finish is a no-op)
 fn s_readonly() -> Result<(), String> {
-    let m = Medium::new();
-    let mut p = Package::create(PackageType::Installer, m.clone()).map_err(|e| e.to_string())?;
-    p.create_table("T", cols()).map_err(|e| e.to_string())?;
-    p.into_inner().map_err(|e| e.to_string())?;
-    let before = m.snapshot();
-    let m2 = Medium::new();
-    *m2.cur.borrow_mut() = Cursor::new(before.clone());
-    m2.ctl.borrow_mut().armed = true;
-    let mut q = Package::open(m2.clone()).map_err(|e| e.to_string())?;
-    let _ = q.select_rows(Select::table("T")).map_err(|e| e.to_string())?.count();
-    let _ = q.summary_info().author();
-    drop(q);
-    if m2.ctl.borrow().writes != 0 || m2.snapshot() != before {
-        return Err(format!("a read-only session issued {} writes", m2.ctl.borrow().writes));
+    // two stored packages: a plain one, and one whose string pool ends in entries that are no longer referenced
+    let mut images = Vec::new();
+    for trailing_unused in [false, true] {
+        let m = Medium::new();
+        let mut p = Package::create(PackageType::Installer, m.clone()).map_err(|e| e.to_string())?;
+        p.create_table("T", cols()).map_err(|e| e.to_string())?;
+        p.insert_rows(Insert::into("T").rows(vec![vec![Value::Int(1), Value::from("first")], vec![Value::Int(2), Value::from("second")]])).map_err(|e| e.to_string())?;
+        p.write_stream("Blob").map_err(|e| e.to_string())?.write_all(b"bytes").map_err(|e| e.to_string())?;
+        if trailing_unused {
+            p.insert_rows(Insert::into("T").row(vec![Value::Int(3), Value::from("the-last-string-added")])).map_err(|e| e.to_string())?;
+            p.flush().map_err(|e| e.to_string())?;
+            p.delete_rows(Delete::from("T").with(Expr::col("K").eq(Expr::integer(3)))).map_err(|e| e.to_string())?;
+        }
+        p.into_inner().map_err(|e| e.to_string())?;
+        images.push(m.snapshot());
+    }
+    for (n, before) in images.iter().enumerate() {
+        for close in 0..3u8 {
+            let m2 = Medium::new();
+            *m2.cur.borrow_mut() = Cursor::new(before.clone());
+            m2.ctl.borrow_mut().armed = true;
+            let mut q = Package::open(m2.clone()).map_err(|e| e.to_string())?;
+            let _ = q.select_rows(Select::table("T")).map_err(|e| e.to_string())?.count();
+            let _ = q.select_rows(Select::table("T").inner_join(Select::table("_Columns"), Expr::col("T.K").eq(Expr::col("_Columns.Number")))).map_err(|e| e.to_string())?.count();
+            let _ = q.summary_info().author();
+            let _ = q.streams().count();
+            let _ = q.has_table("T");
+            let mut buf = Vec::new();
+            q.read_stream("Blob").map_err(|e| e.to_string())?.read_to_end(&mut buf).map_err(|e| e.to_string())?;
+            match close {
+                0 => drop(q),
+                1 => {
+                    q.flush().map_err(|e| e.to_string())?;
+                    drop(q);
+                }
+                _ => {
+                    q.into_inner().map_err(|e| e.to_string())?;
+                }
+            }
+            if m2.ctl.borrow().writes != 0 || &m2.snapshot() != before {
+                return Err(format!("a read-only session on stored package {} closed by {} issued {} writes", n, ["drop", "flush + drop", "into_inner"][close as usize], m2.ctl.borrow().writes));
+            }
+        }
     }
     Ok(())
 }
@@ -429,6 +458,24 @@ fn s_join() -> Result<(), String> {
     let r = all(&mut p, Select::table("R"))?;
     if l.len() != 4 || r.len() != 5 {
         return Err("setup: base tables do not read back".into());
+    }
+    // an empty side: an inner join is empty; a left join keeps every left row, padded
+    p.create_table("E", cols()).map_err(|e| e.to_string())?;
+    for (what, sel, want_rows) in [
+        ("L LEFT JOIN E", Select::table("L").left_join(Select::table("E"), Expr::col("L.K").eq(Expr::col("E.K"))), l.len()),
+        ("L INNER JOIN E", Select::table("L").inner_join(Select::table("E"), Expr::col("L.K").eq(Expr::col("E.K"))), 0),
+        ("E LEFT JOIN L", Select::table("E").left_join(Select::table("L"), Expr::col("L.K").eq(Expr::col("E.K"))), 0),
+        ("L LEFT JOIN (R WHERE Id < 0)", Select::table("L").left_join(Select::table("R").with(Expr::col("Id").lt(Expr::integer(0))), Expr::col("L.K").eq(Expr::col("R.F"))), l.len()),
+    ] {
+        let got = all(&mut p, sel)?;
+        if got.len() != want_rows {
+            return Err(format!("{} returned {} rows, expected {}", what, got.len(), want_rows));
+        }
+        for (g, a) in got.iter().zip(l.iter()) {
+            if g[..a.len()] != a[..] || g[a.len()..].iter().any(|v| !v.is_null()) {
+                return Err(format!("{} returned the row {:?} for the left row {:?}", what, g, a));
+            }
+        }
     }
     for left in [false, true] {
         let on = Expr::col("L.K").eq(Expr::col("R.F"));
